@@ -6,7 +6,8 @@ LEVEL = "exploration"
 RULE = ("for every integer type, every binary operator and every operand pair (8-bit: all 65536 pairs; wider: V13 x V13) a "
         "const-const-binop group is folded by the real ConstantFolder; every int->int cast x all 256 (8-bit) / all 65536 (16-bit, "
         "thorough) / V13 source values; chain patterns (y op1 c1) op2 c2 for op1, op2 in {+,-} (all four combinations) for all 8-bit (c1,c2) (wider: V13 pairs); the Const "
-        "left by the pass must equal the reference run-time result whenever that is defined and must lie in its type's range; "
+        "left by the pass must equal the reference run-time result whenever that is defined and must lie in its type's range; additionally, for every width, "
+        "one folder instance folds each operator on the operand values both signednesses share in the signed and in the unsigned type of one module, in both orders; "
         "distinct non-trivial = distinct (type, operator, folded value)")
 ASSUMPTIONS = ["reference: vf/sem/irinterp.py Interp.binop/cast (wrap-around, truncating / and %, arithmetic >> for signed), validated against gcc by C01",
                "operand pairs for which the operation is undefined (division by zero, INT_MIN/-1, shift count outside [0,width)) are not compared",
@@ -145,9 +146,54 @@ def fold_batch(p, kind, ty, op, pairs):
             p.outcome((ty, op, v.value))
 
 
+def fold_mixed(p, width, op, pairs, first):
+    """ONE ConstantFolder instance (one module, as api.optimize uses it) folds the same operator on the same operand values in the signed
+    and in the unsigned type of one width, `first` type first: state kept by the folder between folds must not leak from one type to the other."""
+    from ppci import ir
+    from ppci.opt.constantfolding import ConstantFolder
+    from vf.gen import irgen
+    from vf.sem.irinterp import Interp, Undefined
+    tys = ("i%d" % width, "u%d" % width) if first == "i" else ("u%d" % width, "i%d" % width)
+    body, meta, n = [], [], 0
+    for a, b in pairs:
+        for ty in tys:
+            body += [["const", ty, a], ["const", ty, b], ["bin", op, "%%%d" % n, "%%%d" % (n + 1), ty], ["store", "%%%d" % (n + 2), "@g", True]]
+            n += 3
+            meta.append((ty, a, b))
+    body.append(["ret", "p0"])
+    m = irgen.build({"name": "foldmixed", "globals": [["g", 8, 8, None]], "functions": [{"name": "f", "ret": "i32", "params": ["i32"], "blocks": [body]}]})
+    try:
+        ConstantFolder().run(m)
+    except Exception:  # noqa  (crashes are judged by the per-type groups)
+        p.count("mixed_group_raised")
+        return
+    stores = [i for i in m.functions[0].blocks[0].instructions if isinstance(i, ir.Store)]
+    ref = Interp(m)
+    for st, (ty, a, b) in zip(stores, meta):
+        p.add()
+        v = st.value
+        if not isinstance(v, ir.Const):
+            continue
+        lo, hi = type_range(ty)
+        try:
+            want = ref.binop(irgen.ty_of(ty), op, a, b)
+        except Undefined:
+            continue
+        if not (lo <= v.value <= hi) or v.value != want:
+            p.violation("mixed-signedness/%s/%s-folded-after-%s" % (op, ty[0], tys[0][0] if ty != tys[0] else "nothing"),
+                        "one ConstantFolder folding %s %r %s %r in a module that also folds the %s type: Const %r, run-time IR semantics give %r" % (
+                            ty, a, op, b, tys[0] if ty != tys[0] else tys[1], v.value, want),
+                        {"kind": "mixed", "width": width, "op": op, "a": a, "b": b, "first": first})
+        else:
+            p.outcome(("mixed", ty, op, v.value))
+
+
 def worker(p, shard):
     for kind, ty, op, pairs in shard:
-        fold_batch(p, kind, ty, op, pairs)
+        if kind == "mixed":
+            fold_mixed(p, ty[0], op, pairs, ty[1])
+        else:
+            fold_batch(p, kind, ty, op, pairs)
 
 
 def chunks(xs, n):
@@ -200,6 +246,16 @@ def run(ctx):
                 continue
             for ch in chunks([(v, None) for v in vals], GROUP * 4):
                 items.append(("cast", src, dst, ch))
+    # both signednesses of one width through ONE folder instance, in both orders (operands in the range the two types share)
+    for width in (8, 16, 32, 64):
+        shared = [v for v in irgen.V("i%d" % width, 13) if v >= 0]
+        if width == 8:
+            shared = list(range(0, 128, 3)) + [126, 127]
+        pairs = list(itertools.product(shared, shared))
+        for op in ops:
+            for first in ("i", "u"):
+                for ch in chunks(pairs, GROUP):
+                    items.append(("mixed", (width, first), op, ch))
     ctx.note("fold_groups", len(items))
     ctx.sample({"kind": "bin", "ty": "i8", "op": "%", "a": -7, "b": 2, "reference": -1})
     ctx.sample({"kind": "chain", "ty": "i8", "op": "+", "c1": 100, "c2": 100})
@@ -210,6 +266,12 @@ def run(ctx):
 def replay(w):
     from vf.core import Partial
     p = Partial()
+    if w["kind"] == "mixed":
+        fold_mixed(p, w["width"], w["op"], [(w["a"], w["b"])], w["first"])
+        if p.violations:
+            k = sorted(p.violations)[0]
+            return True, k + ": " + p.violations[k][1]
+        return False, "both signednesses fold correctly through one folder instance"
     fold_batch(p, w["kind"], w["ty"], w["op"], [(w["a"], w["b"])])
     if p.violations:
         k = sorted(p.violations)[0]
